@@ -1,0 +1,7 @@
+//go:build !verif
+
+package traversal
+
+// verifBeforeSelect is a scheduling point for the external verification harness; without the verif
+// build tag it does nothing.
+func verifBeforeSelect(*Operation, bool) {}
